@@ -22,7 +22,7 @@ REQUIRED = ["ref_compared", "meta:marks_shuffled", "meta:sorted_keys", "meta:mod
             "layout:contests", "obfuscated_record_ids", "sessions_with_modified", "duplicate_marks_contests",
             "uncounted_marks_contests", "directory_reads", "group_filtered_out"]
 ASSUMPTIONS = ["a contest appears at most once per data block of a session (the property does not say which copy wins)"]
-N_CASES = {"quick": 8000, "thorough": 200000}
+N_CASES = {"quick": 24000, "thorough": 200000}
 GROUPS = ([], [1], [2], [1, 2])
 
 
